@@ -1388,7 +1388,7 @@ func TestTwoChains(t *testing.T) {
 	setup(rec)
 	pairsQ := []string{"bls12-377>bw6-761", "bls12-377>bw6-761", "bls24-315>bw6-633"}
 	g := genCase(genCfg{schemes: []string{"groth16", "plonk"}, pairs: pairsQ, minT: 4, maxT: 8, compiled: 12})
-	rec.Check(t, "rec", ev.N(36, 1600), func(rt *rapid.T) {
+	rec.Check(t, "rec", ev.N(48, 1600), func(rt *rapid.T) {
 		c := g.Draw(rt, "case")
 		rec.Report(rt, "rec", c, run(c, rec))
 	})
